@@ -6,6 +6,8 @@
                3 float (width)   4 FixedSizeBinary (param = n)   5 variable-length bytes
                6 struct (param = number of children, which follow)   7 list (child follows)
                8 FixedSizeList (param = n, child follows)   9 RunEndEncoded (child follows)
+               10 Map (key and value types follow): not modelled byte for byte; the *.spec ops read it
+                  as List<Struct<key, value>> (entries are never null), the byte-level ops are not used
           variant / dict select the concrete Arrow type on the Rust side (Date32, Decimal128, Utf8,
           LargeBinary, views, dictionary key type, …) and do not influence the row format.
      1  sort options per field: descending, nulls_first, …
@@ -52,6 +54,16 @@ Fixpoint parse_type (fuel : nat) (toks : list Z) : option (ftype * list Z) :=
       else if code =? 7 then one TList
       else if code =? 8 then one (fun c => TFsl c (Z.to_nat p))
       else if code =? 9 then one TRee
+      else if code =? 10 then
+        (* Map(key, value): specification only, as List<Struct<key, value>> *)
+        match parse_type f r with
+        | Some (k, r') =>
+          match parse_type f r' with
+          | Some (v, r'') => Some (TList (TStruct [k; v]), r'')
+          | None => None
+          end
+        | None => None
+        end
       else None
     | _ => None
     end
